@@ -1,4 +1,5 @@
 import HavocVerif.Lemmas.Frame
+import HavocVerif.Model.TaskTable
 import HavocVerif.Model.Queue
 /-
   C02 — An operator's task reaches the agent exactly as issued.
@@ -100,5 +101,37 @@ example : (⟨11, 7, [.int 5, .str [104, 105], .bool true]⟩ : Job).wf := by
   refine ⟨by decide, by decide, by decide, by decide⟩
 example : ∀ a ∈ [Arg.int 5, .str [104, 105], .bytes [], .uint64 (2^64 - 1)], a.wf := by
   intro a ha; simp at ha; rcases ha with rfl | rfl | rfl | rfl <;> simp [Arg.wf, cstr, endsWithNul]
+
+/-! ### the operator's commands, as the Demon's handlers read them -/
+section TaskTable
+open Havoc.TaskTable
+
+/-- (regenerated) every operator command of the table is served by a handler the Demon's dispatch table knows,
+    under a command id its headers define, and every read of that handler (before its switch and in the case)
+    is one of the parser functions the model gives a width to -/
+theorem table_resolves : table.all (fun e => e.commandId.isSome && e.kinds.isSome) = true := by decide
+
+/-- (regenerated) the reads the table relies on, command by command: the sub-command first where the handler has
+    a switch, then exactly the parameters the operator gives, in the handler's order -/
+theorem table_kinds :
+    (table.map fun e => (e.name, e.kinds)) =
+      [("sleep", some [.int32, .int32]),
+       ("fs.cd", some [.int32, .bytes]), ("fs.remove", some [.int32, .bytes]), ("fs.mkdir", some [.int32, .bytes]),
+       ("fs.download", some [.int32, .bytes]), ("fs.cat", some [.int32, .bytes]),
+       ("fs.cp", some [.int32, .bytes, .bytes]), ("fs.mv", some [.int32, .bytes, .bytes]), ("fs.pwd", some [.int32]),
+       ("proc.kill", some [.int32, .int32]), ("proc.modules", some [.int32, .int32]), ("proc.grep", some [.int32, .bytes]),
+       ("job.list", some [.int32]), ("job.suspend", some [.int32, .int32]), ("job.resume", some [.int32, .int32]), ("job.kill", some [.int32, .int32]),
+       ("token.impersonate", some [.int32, .int32]), ("token.remove", some [.int32, .int32]),
+       ("pivot.connect", some [.int32, .bytes]), ("pivot.disconnect", some [.int32, .int32]),
+       ("transfer.list", some [.int32]), ("transfer.stop", some [.int32, .int32]), ("transfer.resume", some [.int32, .int32]), ("transfer.remove", some [.int32, .int32]),
+       ("exit.thread", some [.int32]), ("exit.process", some [.int32]), ("proclist", some [.int32])] := by decide
+
+
+/- the wide string the Demon must receive for a parameter outside the BMP: surrogate pairs, NUL terminator -/
+example : wstr [0xF0, 0x9F, 0x93, 0x81] = some (.bytes [0x3D, 0xD8, 0xC1, 0xDC, 0, 0]) := by
+  simp [wstr, scalars, encodeUTF16LE, utf16Units, le16]
+  decide
+
+end TaskTable
 
 end Havoc.C02
